@@ -21,7 +21,7 @@ def run(ck):
     ck.trusted += ["harness/c10.py; hand model QV/Model/C10.lean validated on generated inputs",
                    "numpy.linalg.eig/inv/exp inside operator_factory.shift_operator (the tables are handed to the model as data); "
                    "that the numerically exponentiated 100-level matrix reproduces the Poisson law is measured (1e-8), not proved"]
-    ck.prove(PROPS, extra_modules=["QV.Drive.C10"])
+    ck.prove(PROPS, extra_modules=["QV.Drive.C10"], also=["QV.Props.C10Complex"])
     _ops = operator_factory()
 
     class _Cached:
